@@ -19,7 +19,8 @@ IMPORTS = "From U2F Require Import Base.Prelude Cff.Decision."
 RULE = ("random component fonts (lines, cubics, quadratics, integer coordinates so that every level rounds alike, kerning + a "
         "liga feature for layout tables; half of them renamed through public.postscriptNames maps that swap, chain or are plain) compiled under optimizeCFF {0,1,2} x subroutinizer {None,cffsubr,compreffor} x cffVersion "
         "{1,2}; every glyph's drawing operations (by glyph index; a straight axis-parallel run of two lines folded by the specialiser counts as the same outline), glyph order, hmtx and layout table bytes compared with the (0,None,1) build. Non-trivial = "
-        "font has >= 2 glyphs with curves (so subroutinisation/specialisation has something to do).")
+        "font has >= 2 glyphs with curves (so subroutinisation/specialisation has something to do)."
+        " Variable CFF2 built under optimizeCFF 0/1/2 from masters with a point on an edge in one master only, instantiated at four locations.")
 ASSUMPTIONS = ["RecordingPen faithfully reports the drawing operations of a charstring"]
 
 FN = ("fun c : (Z * option backend * Z * Z) => let '(opt, subr, outv, obs) := c in "
